@@ -225,6 +225,11 @@ def regenerate_anchors():
     from . import anchors_effects
 
     anchors_effects.regenerate(REPO, COQ)
+    # function bodies of the satisfaction measures and tie-breaking rules, translated to Gallina
+    # (Generated/PyFuncs.v; fail-closed per function)
+    from . import pytrans
+
+    pytrans.regenerate(REPO, COQ)
 
 
 def coq_build(targets: list[str] | None = None, timeout=3000):
